@@ -208,6 +208,25 @@ class Ideal:
         return None
 
 
+def coq_reader(dirpath, name):
+    import subprocess
+    drv = os.path.join(os.path.dirname(os.path.dirname(os.path.abspath(__file__))), 'build', 'ocaml', 'driver')
+    if not os.path.exists(drv):
+        return None
+    try:
+        if os.path.getsize(os.path.join(dirpath, name + '.val')) > 4 << 20:
+            return None      # list-of-N images of many megabytes are too slow for the extracted reader
+        # the extracted list functions are not tail recursive: give the reader an unlimited stack
+        r = subprocess.run(['bash', '-c', 'ulimit -s unlimited 2>/dev/null; exec "$0" load "$1" "$2"', drv, dirpath, name],
+                           capture_output=True, text=True, timeout=300)
+        out = r.stdout.strip()
+        if r.returncode != 0 or not out.startswith('load '):
+            return None      # the reader itself failed to run (stack, time): no verdict - never a verdict on the code
+        return out
+    except Exception as e:
+        return None
+
+
 def files_ok(dirpath, ideal_contents=None):
     """independent decoder on every map of a directory; returns list of problems"""
     probs = []
@@ -221,6 +240,19 @@ def files_ok(dirpath, ideal_contents=None):
             continue
         reports[nm] = (c, r)
         probs += ['%s: %s' % (nm, x) for x in p]
+        # second, independent reader: the extracted Coq reader Load.load (proved: load (render s) = s) on the real bytes
+        cr = coq_reader(dirpath, nm)
+        if cr is not None:
+            if not cr.startswith('load ok'):
+                probs.append('%s: the Coq reader (Load.load) rejects the files: %s' % (nm, cr[:80]))
+            else:
+                t = cr.split()
+                cnt, ents = int(t[3].split('=')[1]), int(t[4].split('=')[1])
+                want = sorted(show(k) + '=' + show(v) for k, v in c.items())
+                if cnt != ents:
+                    probs.append('%s: Coq reader: stored item count %d but %d reachable entries' % (nm, cnt, ents))
+                elif t[5:] != want:
+                    probs.append('%s: Coq reader and Python decoder recover different contents (%d vs %d entries)' % (nm, ents, len(c)))
         if ideal_contents is not None and nm in ideal_contents and c != ideal_contents[nm]:
             probs.append('%s: decoded contents differ from the ideal map (%d vs %d entries)' % (nm, len(c), len(ideal_contents[nm])))
     return probs, reports
